@@ -8,7 +8,7 @@ ALLOWED_AXIOMS = ["ClassicalDedekindReals.sig_forall_dec", "ClassicalDedekindRea
                   "FunctionalExtensionality.functional_extensionality_dep"]      # the real-number part (Props/C14n.v) only
 PROPS_FILES = ["C14", "C14n"]
 T_GEN = ["OutputGuardsGen.v"]
-T_FILES = ["Generated/OutputGuardsGen", "Numeric/Rescale", "Props/C14n"]
+T_FILES = ["Generated/OutputGuardsGen", "Numeric/Rescale", "Numeric/GuardConstants", "Props/C14n"]
 
 
 def search_failing_input(ctx):
